@@ -53,6 +53,10 @@ def spec_objects(tier):
             out.append(D.Config("PeriodicDiskRevolve", (1, 3, 1, 2, 2), n))
     # beyond the interpreter's small-int cache (identity vs equality)
     out.append(D.Config("TwoLevel", (129, 1, "RAM", "maximum"), 0))
+    # astronomically long periods; no extra units, so that the step-size
+    # search of a block of ~2**63 steps returns at once
+    out.append(D.Config("TwoLevel", (sys.maxsize, 0, "RAM", "maximum"), 0))
+    out.append(D.Config("TwoLevel", (2 ** 62, 0, "DISK", "maximum"), 0))
     out.append(D.Config("Multistage", (0, 4, "maximum"), 300))
     out.append(D.Config("Mixed", (3, "RAM"), 257))
     for n in (1, 2, 3):
